@@ -6,7 +6,7 @@ from props.c02 import bits
 import dbutil
 
 PROPS = ('GambitV.Props.C04', 'GambitV.C04')
-TIE = [('GambitV.Tie.PyRefDb', 'GambitV.Tie.Py'), ('GambitV.Tie.PyQueryFlow', 'GambitV.Tie.Py'), ('GambitV.Tie.PyLocate', 'GambitV.Tie.Py')]
+TIE = [('GambitV.Tie.PyRefDb', 'GambitV.Tie.Py'), ('GambitV.Tie.PyQueryFlow', 'GambitV.Tie.Py'), ('GambitV.Tie.PyLocate', 'GambitV.Tie.Py'), ('GambitV.Tie.PyLoadFlow', 'GambitV.Tie.Py')]
 RULE = ('scratch genome sets (2..9 genomes, built with the repo\'s own models) x signature files whose IDs are a permuted / padded superset, or an '
         'incomplete subset, of the genome IDs, for each of the four identifier attributes; metadata naming no / an invalid attribute; a genome '
         'lacking the attribute; directory listings (all small combinations of .gdb/.db/.gs/.h5/other names incl. dot-files and double extensions); '
